@@ -151,6 +151,26 @@ func (udpEngine) Gen(seed uint64, params map[string]any) json.RawMessage {
 	if r.IntN(3) == 0 {
 		w[evCorrupt] = 1 + r.IntN(5)
 	}
+	if r.IntN(3) == 0 {
+		// "burst" class: many one-chunk messages on very few connections, each in its own datagram, a slow
+		// reader (backlog => reordering) and busy ack / resend-request timers: the states in which selective
+		// acknowledgements race with resend requests over multi-chunk ranges
+		sc.Nodes = 2 + r.IntN(2)
+		sc.Messages = sc.Messages[:0]
+		nm = 5 + r.IntN(26)
+		for i := 0; i < nm; i++ {
+			d := 1 + r.IntN(sc.Nodes-1)
+			sc.Messages = append(sc.Messages, udpMsg{0, d, 4 * (1 + r.IntN(3))})
+		}
+		sc.Steps = 40 + r.IntN(30*nm+100)
+		w[evSubmit] = 15 + r.IntN(20)
+		w[evWrite] = 20 + r.IntN(30)
+		w[evEncHdr] = 10 + r.IntN(20)
+		w[evRead] = 4 + r.IntN(12)
+		w[evAckTimer] = 3 + r.IntN(12)
+		w[evResendReqTimer] = 3 + r.IntN(12)
+		w[evResendTimer] = r.IntN(6)
+	}
 	if sc.Mode == "restart" {
 		w[evRegenerate] = 1 + r.IntN(4)
 	}
